@@ -36,6 +36,25 @@ def case(rng):
     return gvec(rng), tth, chi, wedge
 
 
+def wedge_singular_case(rng, target):
+    """a scattering vector for find_omega_wedge whose internal quantity a = cos(wedge)(cos 2theta - 1) + sin(wedge) sin(2theta) cos(eta) equals `target`
+    (the solver used to divide by a, defect F14; a = 0 means tan(theta) = tan(wedge) cos(eta)): built forwards from (omega, eta, theta) with the solver's own rotation Ry(-wedge).Rz(omega)"""
+    w = rng.uniform(0.05, 0.5) * rng.choice([-1, 1])
+    eta = rng.uniform(-1.2, 1.2) if w > 0 else math.pi - rng.uniform(-1.2, 1.2)
+    om = rng.uniform(-3, 3)
+    afun = lambda th: math.cos(w) * (math.cos(2 * th) - 1) + math.sin(w) * math.sin(2 * th) * math.cos(eta)
+    th = math.atan(math.tan(w) * math.cos(eta))
+    for _ in range(40):
+        d = (afun(th + 1e-7) - afun(th - 1e-7)) / 2e-7
+        th -= (afun(th) - target) / d
+    glab = np.array([-math.sin(th) ** 2, -math.sin(2 * th) * math.sin(eta) / 2, math.sin(2 * th) * math.cos(eta) / 2])
+    g = G.Ry(-w).dot(G.Rz(om)).T.dot(glab)
+    return g / np.linalg.norm(g), 2 * th, w
+
+
+WEDGE_TARGETS = [0.0, 5e-9, -5e-9, 1e-13, 2e-9, -2e-9, -1e-11, 8e-9, 3e-8, 0.0, -1e-7, 1e-6, -1e-5, 1e-15]      # a = 0 was defect F14 (division by a; repaired)
+
+
 def rot_matrix(solver, mod, om, chi, wedge):
     if solver == 'find_omega':
         return G.Rz(om)
@@ -146,6 +165,19 @@ def search(ctx):
                         seen.add((modname, solver, why[:25]))
                         fails.append({'module': modname, 'solver': solver, 'g': gdir.tolist(), 'tth': tth, 'chi': chi, 'wedge': wedge, 'what': why,
                                       'replay': 'xfab.%s.%s: %s' % (modname, solver, why)})
+                # directed: find_omega_wedge close to its removable singularity a = 0
+                if i % 8 == 0:
+                    target = WEDGE_TARGETS[(i // 8) % len(WEDGE_TARGETS)]
+                    gd, tt, wd = wedge_singular_case(ctx.rng, target)
+                    try:
+                        why = None if not (0 < tt < math.pi) else check_solver(modname, mod, 'find_omega_wedge', gd, tt, 0.0, wd)
+                    except Exception as e:
+                        why = 'raised %s: %s' % (type(e).__name__, e)
+                    ctx.count(('sing', modname, i), hist='search:find_omega_wedge:near a = 0 (|a| = %.0e)' % abs(target))
+                    if why and (modname, 'sing', why[:25]) not in seen:
+                        seen.add((modname, 'sing', why[:25]))
+                        fails.append({'module': modname, 'solver': 'find_omega_wedge', 'g': gd.tolist(), 'tth': tt, 'chi': 0.0, 'wedge': wd, 'a': target, 'what': why,
+                                      'replay': 'xfab.%s.find_omega_wedge near a = %g: %s' % (modname, target, why)})
                 # solvers agree where their tilts coincide (zero tilt): same omega set
                 if i % 5 == 0:
                     s = math.sin(tth / 2)
@@ -206,6 +238,6 @@ MANIFEST = dict(
          'meets the x-condition is returned (completeness), 0 / 2 solutions by the sign of the discriminant (|cos eta| > 1 for the wedge solver); find_omega is sound and '
          'in range; tth = 2 asin(lambda sintl) = tth2(U.B.hkl). At zero tilt find_omega_general, find_omega_quart and find_omega_wedge return the same set of omega and contain every omega of find_omega (theorem).',
     design_ref='DESIGN.md section 5 C09 and section 10',
-    note='Trusted: Coq kernel, R axioms, T1 tracer, Atan2.v. The wedge theorems assume the code\'s own divisor a is non-zero (a = 0 is a division by zero in the code).',
+    note='Trusted: Coq kernel, R axioms, T1 tracer, Atan2.v. The wedge theorems need no hypothesis on the code\'s quantity a any more (defect F14, repaired in 66ada13).',
     technique='Coq proof over R of generated piecewise model (atan2 lemmas + nsatz); numeric search on the implementation',
 )
